@@ -14,6 +14,15 @@ template <class S> static long run(int N, const char* scal) {
   for (int i = 0; i < N; i++) { std::string h = "handle_" + std::to_string(i); bool e = i % 2 == 0; masa_init<S>(h, e ? "euler_1d" : "heateq_2d_steady_const"); masa_set_param<S>(e ? "u_0" : "A_x", (S)(i + 0.5)); }
   for (int i = 0; i < N; i++) { std::string h = "handle_" + std::to_string(i); bool e = i % 2 == 0; masa_select_mms<S>(h); std::string nm; masa_get_name<S>(&nm); S v = masa_get_param<S>(e ? "u_0" : "A_x");
     if (nm != (e ? "euler_1d" : "heateq_2d_steady_const") || v != (S)(i + 0.5)) { if (bad++ < 5) fprintf(stderr, "BAD <%s> handle_%d of %d: holds %s with %s = %Lg (expected %s, %g)\n", scal, i, N, nm.c_str(), e ? "u_0" : "A_x", (LD)v, e ? "euler_1d" : "heateq_2d_steady_const", i + 0.5); } }
+  // re-initialisation inside a large registry: first, middle, last created and last sorted handle get the other solution and a new value;
+  // after selecting another handle and coming back they must hold exactly that
+  if (N >= 20) {
+    int picks[5] = {0, N / 2, N - 1, 9, 99 < N ? 99 : N - 2};  // handle_9 / handle_99 sort last among handle_0..handle_N-1 for N <= 100 / <= 1000
+    for (int q = 0; q < 5; q++) { int i = picks[q]; std::string h = "handle_" + std::to_string(i); bool e = i % 2 == 0;  // now the OTHER solution
+      masa_init<S>(h, e ? "heateq_2d_steady_const" : "euler_1d"); masa_set_param<S>(e ? "A_x" : "u_0", (S)(1000 + i + 0.25));
+      masa_select_mms<S>("handle_1"); masa_select_mms<S>(h); std::string nm; masa_get_name<S>(&nm); S v = masa_get_param<S>(e ? "A_x" : "u_0");
+      if (nm != (e ? "heateq_2d_steady_const" : "euler_1d") || v != (S)(1000 + i + 0.25)) { if (bad++ < 8) fprintf(stderr, "BAD <%s> handle_%d of %d re-initialised with %s: after selecting another handle and coming back it holds %s with value %Lg\n", scal, i, N, e ? "heateq_2d_steady_const" : "euler_1d", nm.c_str(), (LD)v); } }
+  }
   return bad;
 }
 // re-initialisation matrix: for every ordered pair (A, B) of catalogue solutions the handle is initialised with A and then with B; it must
